@@ -757,6 +757,11 @@ func runLogStore(tier string, deadline time.Time) *Report {
 	if tier == "thorough" {
 		maxLen = 10
 	}
+	if tier == "thorough" {
+		runStorageOnly(r, 5)
+	} else {
+		runStorageOnly(r, 4)
+	}
 	type node struct {
 		ops []lop
 	}
